@@ -405,6 +405,7 @@ class QueryHandler:
         port: _int,
         transport: _WrappedTransport,
         v6_flow_scope: Union[Tuple[()], Tuple[int, int]],
+        duplicate: bool = False,
     ) -> None:
         """Respond to a (re)assembled query.
 
@@ -427,6 +428,10 @@ class QueryHandler:
             # via the same socket that it was recieved from
             # as we know its reachable from that socket
             self.zc.async_send(out, addr, port, v6_flow_scope, transport)
+        if duplicate:
+            # The repeat of a query we have just handled: whatever is to be
+            # multicast was sent, or queued, when the first copy came in
+            return
         if question_answers.mcast_now:
             self.zc.async_send(construct_outgoing_multicast_answers(question_answers.mcast_now))
         # A truncated query is answered once its continuation packets have
